@@ -131,7 +131,7 @@ def direction_a(ck, dev):
             if members and len(data) >= 2:
                 # the byte classes are represented by one member each in the enumeration: substitute other members of
                 # the same class and evaluate the C14 predicates on the real tokenizer (no model prediction needed)
-                for r in range(2):
+                for r in range(2 if ck.tier == "thorough" else 1):
                     alt = bytes(members[b][(r + i) % len(members[b])] if b in members else b for i, b in enumerate(data))
                     if alt != data:
                         check_real(ck, alt, {B: real_tokens(alt, B) for B in (1, 2, len(alt) + 1, 4096)}, origin="class-member variant of %r" % data)
